@@ -18,6 +18,7 @@ RULE = ("every charge pattern over {+,-,0} of length 1..Lmax (quick 11, thorough
         "charged residue and length >= 5 (otherwise delta is 0 by definition)")
 RULE += ("; added after the mutation rounds: objects obtained through a partly frozen shuffle, from lower-case / whitespace text and around a backend object; kappa asked before delta; every value asked twice; the first cases of every shard are judged again at its end")
 RULE += ("; round 5: objects restored from pickle / copy / deepcopy; look-alike words (nucleotide strings, reading frames)")
+RULE += ("; round 7: every composition of lengths 12-48 (thorough 72), one arrangement each")
 EXHAUSTIVE = {"quick": False, "thorough": False}
 EXHAUSTIVE_NOTE = {"quick": "charge patterns of length 1..11 enumerated completely (265,719)",
                    "thorough": "charge patterns of length 1..13 enumerated completely (2,391,483)"}
@@ -27,7 +28,7 @@ ASSUMPTIONS = [
     "holds only on the inputs driven; nothing is claimed for inputs not generated",
 ]
 REQUIRED = {"all": ["len_lt5", "len_eq5", "len_eq6", "net_negative", "net_zero", "net_positive", "uncharged",
-                    "random_long", "longer_than_1000", "shuffled_objects", "salted_objects", "kappa_before_delta"]}
+                    "random_long", "longer_than_1000", "shuffled_objects", "salted_objects", "kappa_before_delta", "all_compositions_of_lengths_12_and_up"]}
 LMAX = {"quick": 11, "thorough": 13}
 NRANDOM = {"quick": 1500, "thorough": 20000}
 NLONG = {"quick": 6, "thorough": 40}
@@ -52,6 +53,13 @@ def cases(tier, seed):
     for L in range(1, LMAX[tier] + 1):
         for pat in gen.all_patterns(L):
             yield {"k": "pat", "p": M.pat_str(pat)}
+    # every composition (n+, n-, n0) of lengths 12 .. 48 (thorough 72), one random arrangement and spelling each
+    rngc = gen.sub_rng(0, ID, "compositions")
+    for N in range(12, (48 if tier == "quick" else 72) + 1):
+        for p, n, z in gen.compositions(N):
+            pat = [1] * p + [-1] * n + [0] * z
+            rngc.shuffle(pat)
+            yield {"k": "seq", "s": gen.spell(rngc, pat), "comp": 1}
     rng = gen.sub_rng(seed, ID, "random")
     # very long sequences that share their first and last residues but differ inside (process-wide memoisation
     # keyed on an abbreviated form of the sequence would confuse them)
@@ -82,6 +90,8 @@ def judge(case, rep, S):
     else:
         obj = S["SP"](seq)
     salted = case["k"] == "seq" and (rep.evaluations % 4 == 0 or len(seq) <= 60 and rep.evaluations % 2 == 0)
+    if case.get("comp") and rep.evaluations % 16:
+        salted = False                      # the composition sweep is about delta itself; a sixteenth of it still gets the salt
     if salted and len(seq) <= 60:
         obj.get_kappa()                 # delta-max cached before delta is asked for
         rep.cnt("kappa_before_delta")
@@ -106,6 +116,8 @@ def judge(case, rep, S):
         rep.cnt("random_long")
     if L > 1000:
         rep.cnt("longer_than_1000")
+    if case.get("comp"):
+        rep.cnt("all_compositions_of_lengths_12_and_up")
     if case["k"] == "pat":
         rep.cnt("patterns_len_%02d" % L)
     if p + n > 0 and L >= 5:
